@@ -49,6 +49,9 @@ type Proxy struct {
 	plain  bool // sequence headers readable (None or Sign)
 	conns  []net.Conn
 	t0     time.Time
+	// Revise, if set, rewrites the RevisedLifetime (ms) of every OpenSecureChannelResponse the server sends
+	// (security None only): a server that revises the requested lifetime.
+	Revise func(lifetimeMS uint32) uint32
 }
 
 func NewProxy(target string, plain bool) (*Proxy, error) {
@@ -151,6 +154,9 @@ func (p *Proxy) pump(src, dst net.Conn, dir string) {
 		if _, err := io.ReadFull(src, b[8:]); err != nil {
 			return
 		}
+		if dir == "s2c" && p.Revise != nil && string(b[:3]) == "OPN" {
+			reviseLifetime(b, p.Revise)
+		}
 		fr := parseFrame(dir, b, p.plain)
 		fr.AtMS = float64(time.Since(p.t0).Microseconds()) / 1000
 		p.mu.Lock()
@@ -160,6 +166,37 @@ func (p *Proxy) pump(src, dst net.Conn, dir string) {
 			return
 		}
 	}
+}
+
+// reviseLifetime patches SecurityToken.RevisedLifetime of an unsecured OpenSecureChannelResponse chunk in place.
+// The field is followed only by the server nonce (a byte string), so it sits 4 + 4 + len(nonce) bytes from the end.
+func reviseLifetime(b []byte, f func(uint32) uint32) {
+	fr := parseFrame("s2c", b, true)
+	if !fr.Parsed {
+		return
+	}
+	// find the body: three length-prefixed fields after the 12 byte header, then the 8 byte sequence header
+	off := 12
+	for i := 0; i < 3; i++ {
+		n := int(int32(binary.LittleEndian.Uint32(b[off:])))
+		off += 4
+		if n > 0 {
+			off += n
+		}
+	}
+	_, svc, err := ua.DecodeService(b[off+8:])
+	if err != nil {
+		return
+	}
+	r, ok := svc.(*ua.OpenSecureChannelResponse)
+	if !ok || r.SecurityToken == nil {
+		return
+	}
+	pos := len(b) - 4 - len(r.ServerNonce) - 4
+	if pos < 0 || binary.LittleEndian.Uint32(b[pos:]) != r.SecurityToken.RevisedLifetime {
+		return
+	}
+	binary.LittleEndian.PutUint32(b[pos:], f(r.SecurityToken.RevisedLifetime))
 }
 
 // Frames returns the secure-channel frames (OPN/MSG/CLO) seen so far in one direction.
@@ -380,7 +417,8 @@ type PairOpts struct {
 	Sec        *SecOpts // client side security (server gets its own certificate)
 	SrvSec     *SecOpts
 	SrvSeq0    uint32
-	SrvClock   time.Duration // offset of the server's clock
+	SrvClock   time.Duration       // offset of the server's clock
+	Revise     func(uint32) uint32 // the server revises the requested lifetime (ms)
 }
 
 func NewPair(o PairOpts) (*Pair, error) {
@@ -404,6 +442,7 @@ func NewPair(o PairOpts) (*Pair, error) {
 		srv.Close()
 		return nil, err
 	}
+	px.Revise = o.Revise
 	endpoint := "opc.tcp://" + px.Addr() + "/"
 	d := &uacp.Dialer{Dialer: &net.Dialer{Timeout: 3 * time.Second}, ClientACK: o.ClientACK}
 	if d.ClientACK == nil {
